@@ -91,6 +91,35 @@ Theorem c19_gated_rules_have_no_aggregate : gated_with_aggregate = [].
 Proof. exact gated_rules_have_no_aggregate. Qed.
 Print Assumptions c19_gated_rules_have_no_aggregate.
 
+(* ---- end to end for the gates of the tree as it is now (notices computed from Gen/GatedRules.v under
+        capabilities c): a rule to run whose need is unmet for every file of the run reports nothing,
+        whatever its report body says, and is listed with a notice of the severity written down for
+        that need; conversely a notice is only ever listed for an unmet need ---- *)
+Theorem c19_unmet_need_silent_and_listed :
+  forall (F V : Type) (info : F -> file_info) (report_of custom_report_of : rule_id -> F -> list V) (c : caps)
+         (to_run custom_to_run : list rule_id) (order : list F) (nd : need_row),
+  In nd needs_table ->
+  let r := (nd_cat nd, nd_title nd) in
+  let notices_of := fun (r : rule_id) (f : F) => table_notices gated_rules c r (info f) in
+  In r to_run -> ~ In r custom_to_run ->
+  order <> [] ->
+  (forall f, In f order -> need_unmet (nd_need nd) c (info f) = true) ->
+  (forall f v, ~ In (f, (r, v)) (rego_violations F V notices_of report_of custom_report_of to_run custom_to_run order)) /\
+  exists n, In n (lint_notices F notices_of to_run order) /\
+            n_category n = nd_cat nd /\ n_title n = nd_title nd /\ n_severity n = nd_severity nd /\ n_level n = s_notice.
+Proof. exact bundle_unmet_need_silent_and_listed. Qed.
+Print Assumptions c19_unmet_need_silent_and_listed.
+
+Theorem c19_listed_notice_has_unmet_need :
+  forall (F : Type) (info : F -> file_info) (c : caps) (to_run : list rule_id) (order : list F) (n : notice),
+  let notices_of := fun (r : rule_id) (f : F) => table_notices gated_rules c r (info f) in
+  In n (lint_notices F notices_of to_run order) ->
+  exists nd f, In nd needs_table /\ In f order /\ In (nd_cat nd, nd_title nd) to_run /\
+               need_unmet (nd_need nd) c (info f) = true /\
+               n_category n = nd_cat nd /\ n_title n = nd_title nd /\ n_severity n = nd_severity nd.
+Proof. exact bundle_listed_notice_has_unmet_need. Qed.
+Print Assumptions c19_listed_notice_has_unmet_need.
+
 (* ---- non-vacuity ---- *)
 Example c19_ex_old_target : caps := mkCaps [[99;111;117;110;116]] [] [].   (* only `count`; no keywords, no features *)
 Example c19_ex_use_if_gated :
@@ -110,3 +139,7 @@ Example c19_ex_plus_minus :
   b_lookup nat [97] (edit_builtins nat base [[97]; [98]] [([97], 7%nat)]) = Some 7%nat /\
   b_lookup nat [98] (edit_builtins nat base [[97]; [98]] [([97], 7%nat)]) = None.
 Proof. vm_compute. split; reflexivity. Qed.
+Example c19_ex_unmet_need :
+  let nd := mkNeed [105;100;105;111;109;97;116;105;99] [117;115;101;45;105;102] s_warning_sev NeedKeywordIf in
+  In nd needs_table /\ need_unmet (nd_need nd) c19_ex_old_target (mkFile true false) = true.
+Proof. split; [vm_compute; tauto | reflexivity]. Qed.
